@@ -474,7 +474,19 @@ def ncond(e):
     return table.get(t, f"(.other {lean_str(t)})")
 
 
-def nprog(stmts):
+class _SubstNames(ast.NodeTransformer):
+    def __init__(self, env):
+        self.env = env
+
+    def visit_Name(self, n):
+        import copy
+        return copy.deepcopy(self.env[n.id]) if isinstance(n.ctx, ast.Load) and n.id in self.env else n
+
+
+def nprog(stmts, env=None):
+    """env: local names bound to a condition earlier in the loop body (substituted where they are tested)"""
+    import copy
+    env = env or {}
     if not stmts:
         return "NProg.nil"
     s, rest = stmts[0], stmts[1:]
@@ -482,13 +494,18 @@ def nprog(stmts):
     if isinstance(s, ast.Continue):
         return ".cont"
     if isinstance(s, ast.If):
-        return f"(.ite {ncond(s.test)} {nprog(s.body)} {nprog(s.orelse)} {nprog(rest)})"
+        test = _SubstNames(env).visit(copy.deepcopy(s.test))
+        return f"(.ite {ncond(test)} {nprog(s.body, env)} {nprog(s.orelse, env)} {nprog(rest, env)})"
     if isinstance(s, ast.Expr) and isinstance(s.value, ast.Constant):
-        return nprog(rest)
+        return nprog(rest, env)
+    if isinstance(s, ast.Assign) and len(s.targets) == 1 and isinstance(s.targets[0], ast.Name) and s.targets[0].id not in ("tp",):
+        val = _SubstNames(env).visit(copy.deepcopy(s.value))
+        if "(.other" not in ncond(val):
+            return nprog(rest, dict(env, **{s.targets[0].id: val}))
     if t in ("tp += 1", "tp = tp + 1"):
-        return f'(.act "incTp" {nprog(rest)})'
+        return f'(.act "incTp" {nprog(rest, env)})'
     if t in ("for (k, v) in metric_dict.items(): score_dict[k].append(v)", "for k, v in metric_dict.items(): score_dict[k].append(v)"):
-        return f'(.act "appendAll" {nprog(rest)})'
+        return f'(.act "appendAll" {nprog(rest, env)})'
     return f"(.other {lean_str(t[:120])})"
 
 
